@@ -464,6 +464,11 @@ def oracle_one(ctx, c, out):
         elif not (f == 0 and bb == be and 0 <= bb <= n_): return 'BIGM: absent item reported as %s' % out.split('|')[0]
         ctx.nontrivial.add(c)
         return None
+    if w[0] == 'GS':
+        op_, var_, pairs_, _r = parse_case(c[1:])
+        if var_ in ('P', 'H'): pairs_ = [(h, x // 2) for (h, x) in pairs_]
+        EV['GS (generated pvIsSorted)'] += 1
+        return None if out.strip() == ('1' if sorted_spec(pairs_) else '0') else 'IsSorted returned %s, linear scan says %s' % (out, sorted_spec(pairs_))
     if w[0] == 'PCODE':
         EV['pointer code getter'] += 1
         return None if out.split() == [str(4 * (int(w[1]) & 0xFFFF)), '1'] else 'pointer code getter: code of &pool[%s] is %s' % (w[1], out)
@@ -613,7 +618,8 @@ def run(ctx):
                               ('Gen_FindHash.v', sel2coq.translate_findhash, 'interpolation loop of pvFindHash'),
                               ('Gen_Group.v', sel2coq.translate_group, 'HashSorter::pvGroup'),
                               ('Gen_Searches.v', sel2coq.translate_searches, 'pvBinarySearch, pvExponentialSearch'),
-                              ('Gen_GroupLambda.v', sel2coq.translate_group_lambda, 'group callback of HashSorter::pvSort')):
+                              ('Gen_GroupLambda.v', sel2coq.translate_group_lambda, 'group callback of HashSorter::pvSort'),
+                              ('Gen_IsSorted.v', sel2coq.translate_issorted, 'pvIsGrouped, pvIsSorted')):
         gpath = os.path.join(ctx.cdir, gname)
         try:
             txt = gfun(repo=ctx.repo)
@@ -685,6 +691,8 @@ def run(ctx):
         for i_ in sorted(set([0, n_ - 1, n_ // 2])):
             plumb_h.append(line('IPF', 'p', prs) + ' %d' % i_)
     b, _ = run_oracle(ctx, harness, plumb_h, 'oracle-plumbing'); bad += b
+    gs_cases = ['G' + c for c in small + longc if c.startswith('S ')]      # generated pvIsSorted on every IsSorted case
+    b, _ = run_oracle(ctx, harness, gs_cases, 'oracle-gen-issorted'); bad += b
     b, _ = run_oracle(ctx, hradix, plumb_r, 'oracle-pointer-getter'); bad += b
     bigm = []       # model AND real code on arrays of >= 2^22 items (pvGetStepCount = 3)
     for n_ in ((2 ** 22,) if ctx.quick() else (2 ** 22, 2 ** 22 + 5, 2 ** 23 + 1)):
@@ -723,7 +731,7 @@ def run(ctx):
                 outp = ' '.join('%s %d' % (nums[3 * i], int(nums[3 * i + 1]) // div) for i in range(len(pairs)))
                 chk.append('CHK %s %d %s %s' % (var.lower(), len(pairs), inp, outp))
         for name, cs, hx in (('leaves', leaves, harness), ('small', small, harness), ('long', longc, harness), ('sort-check', chk, harness),
-                             ('sort-trace-hashsorter', st_hs, harness), ('sort-trace-radixsorter', st_rs, hradix), ('code-getter', codeg, hradix), ('generated-selection-sort', gsel_cases, hradix), ('big-arrays-step3', bigm, harness)):
+                             ('sort-trace-hashsorter', st_hs, harness), ('sort-trace-radixsorter', st_rs, hradix), ('code-getter', codeg, hradix), ('generated-selection-sort', gsel_cases, hradix), ('big-arrays-step3', bigm, harness), ('generated-issorted', gs_cases, harness)):
             # the model's pvFindNext fuel is the unary numeral S (Z.to_nat count): 2^22 items need a deep (non-tail) recursion
             mcmd = ['bash', '-c', 'ulimit -s unlimited; exec ' + ctx.model_exe] if name == 'big-arrays-step3' else [ctx.model_exe]
             mism, _ = ctx.correspond(name, cs, [hx], mcmd)
@@ -732,10 +740,10 @@ def run(ctx):
             for (i, c, a, b) in mism[:2]:
                 ctx.violation('model and implementation disagree (%s)' % name, {'case': c, 'impl': a[:2000], 'model': b[:2000],
                               'cmd': 'echo "<case>" | build/C17/harness'}, found_input=True)
-    allc = leaves + small + longc + sorts + radix + narrow + st_hs + st_rs + big + codeg + gsel_cases + bigm + plumb_h + plumb_r
+    allc = leaves + small + longc + sorts + radix + narrow + st_hs + st_rs + big + codeg + gsel_cases + bigm + plumb_h + plumb_r + gs_cases
     for c in (small[len(small) // 2], small[-1], longc[0], sorts[len(sorts) // 3], leaves[5]):
         ctx.add_sample(c[:300])
-    ctx.coverage['input_distribution'] = {k: sum(1 for c in allc if c.startswith(k + ' ')) for k in ('MS', 'SC', 'CMP', 'FH', 'F', 'B', 'S', 'SORT', 'RADIX', 'RADIXP', 'RADIXI', 'HSORT', 'RSORT', 'BIGFIND', 'SCODE', 'UCODE', 'GSEL', 'BIGM', 'GRADIX', 'IPF', 'PCODE', 'GCYC', 'GGRP')}
+    ctx.coverage['input_distribution'] = {k: sum(1 for c in allc if c.startswith(k + ' ')) for k in ('MS', 'SC', 'CMP', 'FH', 'F', 'B', 'S', 'SORT', 'RADIX', 'RADIXP', 'RADIXI', 'HSORT', 'RSORT', 'BIGFIND', 'SCODE', 'UCODE', 'GSEL', 'BIGM', 'GRADIX', 'IPF', 'PCODE', 'GCYC', 'GGRP', 'GS')}
     ctx.coverage['input_distribution'].update({'measured: ' + k: v for k, v in sorted(EV.items())})
     ctx.coverage['max_array_length'] = max([int(c.split()[2]) for c in longc + sorts] + [int(c.split()[1]) for c in big])
     ctx.coverage['radix'] = 'RadixSorter<1..16> x codes of 8/16/32/64 bits x sizes around the selection-sort threshold 2^(R/2+1) + pointers; std sorted() oracle + groupFunc-call oracle'
